@@ -40,6 +40,7 @@ def obligations(tier):
         for part in (0, 1, 2):     # the accessor list is split in three to spread the work over the cores
             obs.append(Ob(f"accessors/indicator/{spec_name(spec)}/n={n}/part{part}", dict(spec=list(spec), n=n, part=part), CFG, fn="run_ind_accessors", weight=n * 5, budget_s=900))
             obs.append(Ob(f"accessors/hexital/{spec_name(spec)}/n={n}/part{part}", dict(spec=list(spec), n=n, part=part), CFG, fn="run_hex_accessors", weight=n * 5, budget_s=900))
+    obs.append(Ob("candles that already carry a reading", dict(n=5), CFG, fn="run_carried", weight=10, budget_s=300))
     for host in ("manager", "indicator", "hexital", "hexital-tf"):
         obs.append(Ob(f"encodings/{host}", dict(host=host, n=4), CFG, fn="run_encodings", weight=20, budget_s=900))
         if host != "hexital-tf":
@@ -253,6 +254,29 @@ def run_encodings_aware(ctx, P):
             ctx.require("timestamps stay aware", all(c.timestamp.tzinfo is not None for lst in lists for c in lst))
         else:
             ctx.equal(f"same-result-as-aware-Candle-input[{label}]", got, exp)
+
+
+def run_carried(ctx, P):
+    """Candle objects that already carry a reading (enriched by an external feed): append delivers the same candle - that
+    reading included - to every timeframe, so members on the base timeframe and on T1 (same 1-minute grid) read the same"""
+    _, _, Candle, _, Hexital = lib()
+    n = P["n"]
+    cs = mk_candles(ctx, n, zero_ok=True)
+    ext = [ctx.real(f"ext{i}", -PRICE_HI, PRICE_HI) for i in range(n)]
+    hx = Hexital("hx", [], [build("SMA", dict(period=2, input_value="ext")), build("SMA", dict(period=2, input_value="ext"), timeframe="T1"), build("EMA", dict(period=2))])
+    src = clone(cs)
+    for c, x in zip(src, ext):
+        c.indicators["ext"] = x
+    hx.append(src[0])
+    hx.append(src[1:3])
+    for c in src[3:]:
+        hx.append(c)
+    base = [c.indicators.get("ext") for c in hx.candles()]
+    t1 = [c.indicators.get("ext") for c in hx.candles("T1")]
+    ctx.observe("carried", base)
+    ctx.equal("the carried reading reached the base timeframe", base, ext)
+    ctx.equal("the carried reading reached the T1 timeframe", t1, ext)
+    ctx.equal("members reading it agree on both timeframes", hx.reading_as_list("SMA_2_T1"), hx.reading_as_list("SMA_2"))
 
 
 def _keep(obj):
